@@ -113,6 +113,8 @@ class ScriptedTransport(AbstractMessagingTransport):
 
     async def close(self):
         self.closed += 1
+        if getattr(self, 'close_error', None) is not None:
+            raise self.close_error        # e.g. TransportTCP.close(): writer.wait_closed() re-raises the error the connection was lost with
 
 
 def dumps(transport, since=0):
